@@ -5,7 +5,9 @@ package main
 
 import (
 	"fmt"
+	"go/ast"
 	"go/constant"
+	"strconv"
 	"go/token"
 	"go/types"
 	"sort"
@@ -40,6 +42,7 @@ type fnCtx struct {
 	depth    int
 	edges    map[[2]int]string
 	allowed  map[string][]string
+	keyed    map[loopKeyRes][]Clause
 	env      *SpecEnv // for invariants (top-level function only)
 }
 
@@ -611,7 +614,7 @@ func (e *Engine) handleLoop(fc *fnCtx, li *loopInfo, sIn *State) map[*ssa.BasicB
 	invs := e.loopInvariants(fc, li)
 	for i, inv := range invs {
 		f := e.evalInv(fc, li, sIn, inv)
-		e.addObl(fc.fn, "inv.init", fmt.Sprintf("[%d.%d] %s", li.ordinal, i, inv.Text), li.header.Instrs[0].Pos(), sIn.Reach, f)
+		e.addObl(fc.fn, "inv.init", invLabel(li, i, inv), li.header.Instrs[0].Pos(), sIn.Reach, f)
 	}
 	// 3. havoc what the body modifies, assume invariants
 	head := sIn.clone()
@@ -686,7 +689,7 @@ func (e *Engine) handleLoop(fc *fnCtx, li *loopInfo, sIn *State) map[*ssa.BasicB
 	for _, bs := range backs {
 		for i, inv := range invs {
 			f := e.evalInv(fc, li, bs, inv)
-			e.addObl(fc.fn, "inv.preserved", fmt.Sprintf("[%d.%d] %s", li.ordinal, i, inv.Text), li.header.Instrs[0].Pos(), bs.Reach, f)
+			e.addObl(fc.fn, "inv.preserved", invLabel(li, i, inv), li.header.Instrs[0].Pos(), bs.Reach, f)
 		}
 		for _, n := range frameHeaps {
 			if f, ok := e.frameFormula(fc, n, bs); ok {
@@ -775,15 +778,106 @@ func (e *Engine) loopInvariants(fc *fnCtx, li *loopInfo) []Clause {
 	if fc.contract == nil || len(e.inlineStack) > 0 {
 		return nil
 	}
-	return fc.contract.Invariants[li.ordinal]
+	out := append([]Clause(nil), fc.contract.Invariants[li.ordinal]...)
+	if len(fc.contract.KeyedInv) > 0 {
+		for key, cls := range e.loopKeys(fc) {
+			if key.ordinal == li.ordinal {
+				out = append(out, cls...)
+			}
+		}
+	}
+	return out
 }
 
 func (e *Engine) loopDecreases(fc *fnCtx, li *loopInfo) (Clause, bool) {
 	if fc.contract == nil || len(e.inlineStack) > 0 {
 		return Clause{}, false
 	}
-	c, ok := fc.contract.Decreases[li.ordinal]
-	return c, ok
+	if c, ok := fc.contract.Decreases[li.ordinal]; ok {
+		return c, true
+	}
+	if len(fc.contract.KeyedDec) > 0 {
+		texts := loopTexts(fc.fn)
+		for key, c := range fc.contract.KeyedDec {
+			if ord, ok := resolveLoopKey(texts, key); ok && ord == li.ordinal {
+				return c, true
+			}
+		}
+	}
+	return Clause{}, false
+}
+
+type loopKeyRes struct {
+	key     string
+	ordinal int
+}
+
+// loopKeys resolves the text-keyed invariants of the contract to loop ordinals (source order of the loops).
+func (e *Engine) loopKeys(fc *fnCtx) map[loopKeyRes][]Clause {
+	if fc.keyed != nil {
+		return fc.keyed
+	}
+	fc.keyed = map[loopKeyRes][]Clause{}
+	texts := loopTexts(fc.fn)
+	for key, cls := range fc.contract.KeyedInv {
+		ord, ok := resolveLoopKey(texts, key)
+		if !ok {
+			e.specFail(fc.env, fmt.Sprintf("invariant[%s]: no loop with that header in %s (loops: %s)", key, fc.fn.Name(), strings.Join(texts, " | ")))
+		}
+		fc.keyed[loopKeyRes{key, ord}] = cls
+	}
+	return fc.keyed
+}
+
+// loopTexts lists the loops of fn in source order as "range <expr>" / "for <cond>".
+func loopTexts(fn *ssa.Function) []string {
+	var body ast.Node
+	switch s := fn.Syntax().(type) {
+	case *ast.FuncDecl:
+		body = s.Body
+	case *ast.FuncLit:
+		body = s.Body
+	}
+	if body == nil {
+		return nil
+	}
+	var out []string
+	ast.Inspect(body, func(n ast.Node) bool {
+		switch x := n.(type) {
+		case *ast.FuncLit:
+			return false
+		case *ast.RangeStmt:
+			out = append(out, "range "+types.ExprString(x.X))
+		case *ast.ForStmt:
+			if x.Cond != nil {
+				out = append(out, "for "+types.ExprString(x.Cond))
+			} else {
+				out = append(out, "for")
+			}
+		}
+		return true
+	})
+	return out
+}
+
+func resolveLoopKey(texts []string, key string) (int, bool) {
+	want, nth := key, 0
+	if i := strings.LastIndex(key, "#"); i > 0 {
+		if n, err := strconv.Atoi(key[i+1:]); err == nil {
+			want, nth = strings.TrimSpace(key[:i]), n
+		}
+	}
+	norm := func(s string) string { return strings.Join(strings.Fields(s), " ") }
+	k := 0
+	for i, t := range texts {
+		if norm(t) == norm(want) {
+			if k == nth {
+				return i, true
+			}
+			k++
+		}
+	}
+	return 0, false
 }
 
 func (e *Engine) evalInv(fc *fnCtx, li *loopInfo, st *State, c Clause) string {
@@ -1135,4 +1229,11 @@ func valueBlock(v ssa.Value) *ssa.BasicBlock {
 		return ins.Block()
 	}
 	return nil
+}
+
+func invLabel(li *loopInfo, i int, inv Clause) string {
+	if inv.Key != "" {
+		return fmt.Sprintf("[%s] %s", inv.Key, inv.Text)
+	}
+	return fmt.Sprintf("[%d.%d] %s", li.ordinal, i, inv.Text)
 }
